@@ -6,6 +6,16 @@ V = os.path.dirname(os.path.dirname(os.path.abspath(__file__)))
 
 # id -> (category, technique, level text, level note, design_ref)   ; only BUILT checks are listed here
 CHECKS = {
+ "C04": ("exploration",
+         "exhaustive enumeration of the (type, width, value, literal form) boundary table against the closed-form ranges of the statement, plus proptest sampling of wide types",
+         "Complete enumeration of every (uN/sN/iN/#dN, N <= 16, v in [-2^N-4, 2^N+4]) (quick: complete to N = 13, boundary neighbourhoods above) and of #dN with sized literals of every width, plus sampled widths 17..256 at the boundaries. Within those bounds acceptance, emitted bits and error location are decided for every value; beyond them it is sampling.",
+         "`t {x: TYPE} => x` as the observation of the emitted bits; the four N = 0 rejections are listed known findings.",
+         "6/C04"),
+ "C05": ("exploration",
+         "model-based property testing: type-directed expression generator vs. an independent arbitrary-precision reference evaluator, two printings (minimal/full parentheses), shrinking via proptest",
+         "Random search over expression trees to depth 6 against a reference evaluator written from the language description; value, size and error/no-error are compared for every expression in both printings. Exploration of an infinite space: finds wrong operators, precedence, sizes and encodings with high probability, proves nothing about unexplored trees.",
+         "The precedence table is the pinned one (no other documentation exists); numeric value of strings whose first byte is >= 0x80 and ascii() of non-ASCII characters are not asserted; trusted: num-bigint +,-,*,divrem, comparison, unsigned bit ops.",
+         "6/C05"),
  "C03": ("fault_enumeration",
          "property-based fuzzing (proptest choice tape, token-level mutation of the test corpus) + exhaustive single I/O fault enumeration per case, outcome predicate on driver::drive",
          "Search over mutated corpus programs x generated command lines with an outcome predicate (no panic; Ok <=> no error diagnostic; Err => error diagnostic and nothing written), and for a quarter of the cases every single permanent read/write fault is enumerated. Exploration, not proof: it samples the input space, but each sampled case gets all of its faults.",
